@@ -327,7 +327,30 @@ func render(v zygo.Sexp, d int) string {
 	case *zygo.SexpSymbol:
 		return fmt.Sprintf("Y%x", []byte(x.Name()))
 	case *zygo.SexpPair:
-		return "(P " + render(x.Head, d-1) + " " + render(x.Tail, d-1) + ")"
+		// the spine of a list is walked iteratively and does not count as nesting (a concat of long
+		// lists is a long spine, not a deep value); a spine that comes back to one of its own pairs
+		// (a cycle made by a destructive builtin) or exceeds 200000 pairs is cut with "#"
+		var sb strings.Builder
+		seen := map[*zygo.SexpPair]bool{}
+		n := 0
+		var cur zygo.Sexp = x
+		for {
+			pr, ok := cur.(*zygo.SexpPair)
+			if !ok {
+				sb.WriteString(render(cur, d-1))
+				break
+			}
+			if seen[pr] || n >= 200000 {
+				sb.WriteString("#")
+				break
+			}
+			seen[pr] = true
+			n++
+			sb.WriteString("(P " + render(pr.Head, d-1) + " ")
+			cur = pr.Tail
+		}
+		sb.WriteString(strings.Repeat(")", n))
+		return sb.String()
 	case *zygo.SexpArray:
 		p := make([]string, len(x.Val))
 		for i, e := range x.Val {
